@@ -137,14 +137,29 @@ Section Jsonl.
     - apply N.eqb_neq. lia.
   Qed.
 
+  (* a line that starts like a JSON document is not blank (its first byte is below 128 and is
+     no white space, so it starts none of the multi-byte white-space characters either) *)
+  Lemma json_start_not_blank : forall b rest, json_start b = true -> is_blank (b :: rest) = false.
+  Proof.
+    intros b rest H. cbn [is_blank]. rewrite (json_start_not_ws _ H).
+    unfold json_start in H.
+    repeat rewrite orb_true_iff in H. rewrite andb_true_iff in H.
+    repeat rewrite N.eqb_eq in H. repeat rewrite N.leb_le in H.
+    assert (H1 : (b =? 194) = false) by (apply N.eqb_neq; lia).
+    assert (H2 : (b =? 225) = false) by (apply N.eqb_neq; lia).
+    assert (H3 : (b =? 226) = false) by (apply N.eqb_neq; lia).
+    assert (H4 : (b =? 227) = false) by (apply N.eqb_neq; lia).
+    rewrite H1, H2, H3, H4. reflexivity.
+  Qed.
+
   Lemma parse_lines_payload : forall rs,
     Forall record_ok rs -> parse_lines de (map ser rs) = Some rs.
   Proof.
     induction rs as [|r rs IH]; intros H; [reflexivity|].
     inversion H as [|? ? [Hl Hd] Hrs]; subst.
     destruct (line_ok_parts _ Hl) as (b & rest & E & Hb & _).
-    cbn [map parse_lines]. rewrite E at 1. cbn [is_blank forallb].
-    rewrite (json_start_not_ws _ Hb). cbn [andb]. rewrite Hd, IH by exact Hrs. reflexivity.
+    cbn [map parse_lines]. rewrite E at 1.
+    rewrite (json_start_not_blank _ rest Hb). rewrite Hd, IH by exact Hrs. reflexivity.
   Qed.
 
   (* a plain JSONL payload never starts with a codec signature *)
